@@ -85,8 +85,8 @@ func genStep(r *vh.Rand, small bool) (string, string, []string) {
 	}
 	if small {
 		n = r.Range(0, 5)
-	} else if vh.Thorough && r.Chance(1, 150) {
-		n = r.Range(200, 700) // huge table (thorough tier only)
+	} else if vh.Thorough && r.Chance(1, 200) {
+		n = r.Range(150, 400) // huge table (thorough tier only)
 	}
 	spread := []int{8, 24, 64, 64}[r.Intn(4)]
 	var rs []rng
